@@ -64,7 +64,7 @@ _TREE = [None]
 _REAL_COMPOSER_GSN = yaml.composer.Composer.get_single_node
 
 
-def install_stubs(close_matches: bool = True) -> None:
+def install_stubs(close_matches: bool = True, composer: bool = True) -> None:
     """S1-S3.  Only under symbolic execution; replay runs the real thing."""
     if not SYMBOLIC:
         return
@@ -77,9 +77,10 @@ def install_stubs(close_matches: bool = True) -> None:
         import yatiml.util
         yatiml.util.get_close_matches = lambda *a, **k: []
         STUBS_USED.append('S2 close-match hints')
-    # S3: the text front end returns *some* node tree (or None)
-    yaml.composer.Composer.get_single_node = lambda self: _TREE[0]
-    STUBS_USED.append('S3 composer')
+    if composer:
+        # S3: the text front end returns *some* node tree (or None)
+        yaml.composer.Composer.get_single_node = lambda self: _TREE[0]
+        STUBS_USED.append('S3 composer')
 
 
 P = 'tag:yaml.org,2002:'
